@@ -378,7 +378,8 @@ def _dataset_pair(draw):
     n = draw(st.integers(2, 4))
     items = draw(st.lists(G.solved_case(lo=n, hi=n, square=True), min_size=0, max_size=5))
     items = [{"g": it["g"], "sol": it["sol"]} for it in items]
-    mode = draw(st.sampled_from(["same", "copy", "one-maze", "length", "name", "seed", "order", "resplit", "resplit"]))
+    mode = draw(st.sampled_from(["same", "copy", "one-maze", "length", "name", "seed", "order", "resplit", "resplit",
+                                 "near-bit", "near-interior", "near-interior", "near-start", "near-end", "near-reverse"]))
     case = {"n": n, "a": items, "b": [dict(it) for it in items]}
     if mode == "same":
         case["same"] = True
@@ -395,6 +396,31 @@ def _dataset_pair(draw):
         case["seed_b"] = 43
     elif mode == "order" and len(items) >= 2:
         case["b"] = list(reversed(case["b"]))
+    elif mode.startswith("near-") and items:
+        # the two datasets differ in one maze only, and that maze in as little as possible: one connection flag, one interior cell of the
+        # solution (same endpoints, same length - another route), one endpoint, or the direction the solution is walked in
+        k = draw(st.integers(0, len(items) - 1))
+        it = case["b"][k]
+        sol = [list(x) for x in it["sol"]]
+        cells = [[i, j] for i in range(n) for j in range(n)]
+        if mode == "near-bit":
+            bits = M.g_bits(it["g"])
+            free = [b for b, v in enumerate(M.clear_boundary(n, n, [1] * len(bits))) if v]
+            b = draw(st.sampled_from(free))
+            bits[b] = 0 if bits[b] else 1
+            case["b"][k] = {"g": M.g_make(n, n, bits), "sol": sol}
+        elif mode == "near-interior" and len(sol) >= 3:
+            idx = draw(st.integers(1, len(sol) - 2))
+            sol[idx] = draw(st.sampled_from([q for q in cells if q != sol[idx]]))
+            case["b"][k] = {"g": it["g"], "sol": sol}
+        elif mode == "near-start":
+            sol[0] = draw(st.sampled_from([q for q in cells if q != sol[0]]))
+            case["b"][k] = {"g": it["g"], "sol": sol}
+        elif mode == "near-end":
+            sol[-1] = draw(st.sampled_from([q for q in cells if q != sol[-1]]))
+            case["b"][k] = {"g": it["g"], "sol": sol}
+        elif mode == "near-reverse":
+            case["b"][k] = {"g": it["g"], "sol": sol[::-1]}
     elif mode == "resplit":
         # two mazes on one graph whose solutions, laid end to end, read the same in both datasets but are cut at different places
         base = draw(G.solved_case(lo=n, hi=n, square=True, connected=True, min_len=4))
